@@ -144,7 +144,7 @@ def all_modes():
 
 
 ENTRIES = ['run', 'call', 'evaluate', 'import', 'run-code']
-ENVS = ['plain', 'outer-trace', 'outer-patchers', 'before-and-after-code', 'failpoint-traceback', 'failpoint-feedback']
+ENVS = ['plain', 'outer-trace', 'outer-patchers', 'before-and-after-code', 'time-module-blocked', 'time-module-replaced', 'failpoint-traceback', 'failpoint-feedback']
 
 
 class InjectedFailure(RuntimeError):
@@ -484,6 +484,14 @@ def execute_case(ctx, which, case, state=None):
             pass
     n_rt_before = len(runtime_feedbacks(report))
     envname = case.get('env', 'plain')
+    if envname.startswith('time-module') and 'time' in case['body'].replace('timeout', ''):
+        ctx.count('cells_skipped_(the_program_itself_uses_the_module_the_instructor_blocked)')
+        return
+    if envname == 'time-module-blocked':
+        # the instructor forbids a module - here the one whose sleep() pedal itself replaces during an execution
+        sandbox.block_module('time')
+    elif envname == 'time-module-replaced':
+        sandbox.mock_module('time', {'sleep': lambda seconds: None, 'time': lambda: 0.0}, 'time')
     with Env(envname):
         return _measured(ctx, which, case, sandbox, report, files, inputs, n_rt_before)
 
@@ -708,7 +716,7 @@ def case_matrix(ctx, which):
                     if m['kind'] == 'timeout' and (not threaded or which != 'C05'):
                         continue        # only a threaded execution has a time limit (and only C05 looks at what is left behind)
                     for pos in ('first', 'after-failure', 'after-ok', 'after-clear_context', 'the-same-execution-before'):
-                        for env in (ENVS if which == 'C05' else ENVS[:4]):
+                        for env in (ENVS if which == 'C05' else ENVS[:6]):
                             if env.startswith('failpoint') and m['kind'] in ('ok',):
                                 continue
                             c = dict(m)
